@@ -56,6 +56,9 @@ type Case struct {
 	// WriteFailAfter >= 0: the transport fails every write after that many succeeded (used by the
 	// C11 log checks: a failing write must not leak what it carried). absent = never.
 	WriteFailAfter *int `json:"write_fail_after,omitempty"`
+	// Custom: the device asks in spellings of its own and the driver is configured with the
+	// matching user name / password / passphrase patterns (which the defaults do not match)
+	Custom bool `json:"custom,omitempty"`
 }
 
 const shellPrompt = "edge-1# "
@@ -196,6 +199,21 @@ func Gen(t *rapid.T) Case {
 		c.FaultKind = rapid.SampledFrom([]string{"", "", "eof", "err"}).Draw(t, "faultKind")
 	}
 
+	if rapid.IntRange(0, 5).Draw(t, "custom") == 0 {
+		c.Custom = true
+
+		for i := range c.Rounds {
+			switch c.Rounds[i].K {
+			case "user":
+				c.Rounds[i].Text = rapid.SampledFrom([]string{"Benutzer: ", "benutzer:"}).Draw(t, "customUser")
+			case "password":
+				c.Rounds[i].Text = rapid.SampledFrom([]string{"Kennwort: ", "KENNWORT:"}).Draw(t, "customPass")
+			case "passphrase":
+				c.Rounds[i].Text = "Schluessel-Passwort fuer '/k': "
+			}
+		}
+	}
+
 	c.Reopen = rapid.SampledFrom([]string{"", "", "same", "silent"}).Draw(t, "reopen")
 	c.ReopenEarly = rapid.Bool().Draw(t, "reopenEarly")
 
@@ -286,6 +304,10 @@ func (d *loginDev) play() []byte {
 			recog := len(strings.TrimRight(r.Text, " "))
 			if r.K == "passphrase" {
 				recog = strings.Index(strings.ToLower(r.Text), "enter passphrase for key") + len("enter passphrase for key")
+
+				if d.c.Custom {
+					recog = strings.Index(strings.ToLower(r.Text), "schluessel-passwort") + len("schluessel-passwort")
+				}
 			}
 
 			if d.asked == nil {
@@ -376,6 +398,30 @@ func (s *syncBuf) Write(p []byte) (int, error) {
 
 var _ io.Writer = (*syncBuf)(nil)
 
+// scriptOutcome is the outcome of the undisturbed dialogue: the first decisive event of the script.
+func scriptOutcome(c *Case) string {
+	asked := map[string]int{}
+
+	for _, r := range c.Rounds {
+		switch r.K {
+		case "text", "reject":
+		case "error":
+			return "connection"
+		default:
+			asked[r.K]++
+			if asked[r.K] == 3 {
+				return "auth"
+			}
+		}
+	}
+
+	if c.Shell {
+		return "success"
+	}
+
+	return "timeout"
+}
+
 // Run executes one login case.
 func Run(c Case) (res Result) {
 	res = Result{Sent: map[string]int{}}
@@ -430,7 +476,16 @@ func Run(c Case) (res Result) {
 	chanLog := &syncBuf{}
 	timeout := time.Duration(c.ReadDelayNS) * 40000
 
-	d, err := generic.NewDriver("sim",
+	var custom []util.Option
+	if c.Custom {
+		custom = []util.Option{
+			options.WithUsernamePattern(regexp.MustCompile(`(?im)^benutzer:\s?$`)),
+			options.WithPasswordPattern(regexp.MustCompile(`(?im)^kennwort:\s?$`)),
+			options.WithPassphrasePattern(regexp.MustCompile(`(?i)schluessel-passwort`)),
+		}
+	}
+
+	d, err := generic.NewDriver("sim", append(custom,
 		options.WithCustomTransport(sim.AuthPipe{Pipe: pipe}),
 		options.WithTransportReadSize(c.ReadSize),
 		options.WithReadDelay(time.Duration(c.ReadDelayNS)),
@@ -439,7 +494,7 @@ func Run(c Case) (res Result) {
 		options.WithAuthPassword(c.Password),
 		options.WithLogger(li),
 		options.WithChannelLog(chanLog),
-	)
+	)...)
 	if err != nil {
 		res.Verdict = ev.Fail("NewDriver: %v", err)
 
@@ -478,9 +533,31 @@ func Run(c Case) (res Result) {
 		want = "timeout"
 	}
 
+	if c.StallAt < 0 && c.WriteFailAfter == nil {
+		// nothing disturbs the dialogue: its outcome is that of the script played against a client
+		// that answers every prompt (what the device got to emit depends on the client doing so)
+		want = scriptOutcome(&c)
+	}
+
 	// a failure message is recognised at the latest when its line is complete: between the end
 	// of the recognisable words and the end of the line a stall may go either way
 	eitherTimeout := want == "connection" && c.StallAt >= 0 && c.FaultKind == "" && c.StallAt >= dev.errEnd && c.StallAt < dev.errLineEnd
+
+	if c.WriteFailAfter != nil && openErr != nil && pipe.WriteErrors() > 0 {
+		// a write failed and the open with it: whatever the class of the error, "in every failure
+		// case the transport is closed"
+		collect()
+
+		if pipe.Closes < 1 {
+			res.Verdict = ev.Fail("Open failed with %v (write %d failed) but the transport was not closed", openErr, *c.WriteFailAfter)
+
+			return res
+		}
+
+		res.Verdict = ev.Verdict{OK: true, NonTrivial: true, Classes: []string{"flavour=" + c.Flavour, "outcome=write-failed"}}
+
+		return res
+	}
 
 	lost := c.StallAt >= 0 && c.FaultKind != "" && (decisive < 0 || c.StallAt < decisive)
 	if lost {
@@ -581,6 +658,7 @@ func Run(c Case) (res Result) {
 		// login bytes stayed available: first GetPrompt and first command work (a stall that began
 		// after the shell prompt was recognisable is lifted first)
 		pipe.ClearFault()
+		pipe.WriteFailAfter = -1 // (a sending direction that was to fail later: not during this login)
 
 		// without typing anything, what login consumed (at least the shell prompt it stopped at)
 		// is readable again
@@ -692,6 +770,10 @@ func Run(c Case) (res Result) {
 	}
 
 	v := ev.Verdict{OK: true, Classes: []string{"flavour=" + c.Flavour, "outcome=" + got}}
+	if c.Custom {
+		v.Classes = append(v.Classes, "configured-patterns")
+	}
+
 	rej := 0
 
 	kinds := map[string]bool{}
@@ -729,4 +811,16 @@ func Run(c Case) (res Result) {
 func runProp(c Case) ev.Verdict { return Run(c).Verdict }
 
 // Prop is the C10 property.
-var Prop = &ev.Prop[Case]{ID: "C10", Name: "login", Gen: Gen, Run: runProp, Bubble: true}
+// genProp: the C10 dialogues, some of them over a link that loses its sending direction.
+func genProp(t *rapid.T) Case {
+	c := Gen(t)
+
+	if rapid.IntRange(0, 7).Draw(t, "writeFault") == 0 {
+		k := rapid.IntRange(0, 3).Draw(t, "writeFailAfter")
+		c.WriteFailAfter = &k
+	}
+
+	return c
+}
+
+var Prop = &ev.Prop[Case]{ID: "C10", Name: "login", Gen: genProp, Run: runProp, Bubble: true}
